@@ -80,7 +80,15 @@ func materialise(dir string, n *FsNode) error {
 		return err
 	}
 	if n.Mode != "" && (n.Kind == "file" || n.Kind == "dir") {
-		return os.Chmod(filepath.Join(dir, n.Name), fsMode(n.Mode))
+		m := fsMode(n.Mode)
+		if os.Geteuid() != 0 {
+			// not root: keep the tree readable by its owner (an unreadable file is a different scenario: the import must fail)
+			m |= 0o400
+			if n.Kind == "dir" {
+				m |= 0o700
+			}
+		}
+		return os.Chmod(filepath.Join(dir, n.Name), m)
 	}
 	return nil
 }
